@@ -919,12 +919,33 @@ def h_lookup_oid(eng, st, self_v, args, kwargs):
     bound = oid_indexed_entries(st, self_v, sd)
     bound_addrs = set(e.addr for e in bound)
     owned = zor(*[P.eq(st, side_field(st, e, sd, "oid"), oid) for e in bound])
+    # an earlier look-up of this very id found nothing and no entry was given the id since: still nothing
+    known_unbound = False
+    for usd, uoid in st.obj(self_v).meta.get("unbound_oid", ()):
+        if usd == sd:
+            same = P.eq(st, uoid, oid)
+            if z3.is_true(z3.simplify(same)) or (not z3.is_false(z3.simplify(same)) and not eng.feasible(st, znot(same))):
+                known_unbound = True
+                break
     # not found
     s0 = st.clone()
     if eng.feasible(s0, znot(owned)):
         s0.assume(znot(owned))
+        so0 = s0.obj(self_v)
+        so0.meta = dict(so0.meta)
+        so0.meta["unbound_oid"] = tuple(so0.meta.get("unbound_oid", ())) + ((sd, oid),)
         res.append((s0, (VAL, NONE)))
     if isinstance(oid, C) and oid.v is None:
+        return res
+    if known_unbound:
+        # only an entry bound since then can be found
+        for ent in bound:
+            cond = P.eq(st, side_field(st, ent, sd, "oid"), oid)
+            if z3.is_false(cond) or not eng.feasible(st, cond):
+                continue
+            s1 = st.clone()
+            s1.assume(cond)
+            res.append((s1, (VAL, ent)))
         return res
     # a known entry that carries this oid: the bound one if there is one, otherwise any
     for ent in known_entries(st, self_v):
